@@ -140,6 +140,7 @@ class Slice:
         self.stmts = []       # [(order key, ast.stmt)]
         self.sources = {}     # param name -> role ("target" | "source")
         self.notes = []
+        self.map_flows = []   # [(map name, read binding node, store statement)]: values that reach the sink through a local lookup table
         self.ok = True
         self.why = ""
 
@@ -213,6 +214,7 @@ class Slicer:
                 v2 = self.need_expr(st.value, st)
                 self.emit(b.node, ast.Assign(targets=[ast.Name(id=name, ctx=ast.Store())], value=v2))
                 self.sl.notes.append(f"{name} flows through map {value.value.id}")
+                self.sl.map_flows.append((value.value.id, b.node, st))
                 return
             if not stores:
                 self.sl.sources[name] = "source"
@@ -283,3 +285,24 @@ def is_lookup_of(expr, keys):
     if isinstance(expr, ast.Subscript) and not isinstance(expr.slice, ast.Slice):
         return key_ok(expr.slice)
     return False
+
+
+def table_scope(fn, pm, mname, read_node, store_stmt):
+    """A value read from the local lookup table `mname` at `read_node` is the value stored by `store_stmt` *for the current source
+    part* only if the table is re-initialised inside every loop that encloses both the store and the read: otherwise entries
+    written in earlier iterations of that loop (for other source parts) are still visible to the read.
+    -> (ok, detail) ; ok None: shape not recognised."""
+    b = reaching(fn, pm, mname, read_node)
+    if b is None or b.kind != "assign":
+        return None, f"no unique initialisation of {mname} reaches its use"
+    v = b.value
+    empty = (isinstance(v, ast.Dict) and not v.keys) or (isinstance(v, ast.Call) and dotted(v.func) == "dict" and not v.args and not v.keywords)
+    if not empty:
+        return None, f"{mname} is initialised by {ast.unparse(v)[:60]}"
+    init_anc = set(id(a) for a in ancestors(pm, b.node))
+    common = [a for a in ancestors(pm, read_node) if isinstance(a, (ast.For, ast.While)) and id(a) in set(id(x) for x in ancestors(pm, store_stmt))]
+    outside = [l for l in common if id(l) not in init_anc]
+    if outside:
+        return False, (f"{mname} is created at line {b.node.lineno}, outside the loop at line {outside[-1].lineno} that both fills and reads it: entries of earlier "
+                       f"iterations (other source parts) stay visible, so a key that the current part does not define resolves to another part's value")
+    return True, ""
